@@ -35,7 +35,7 @@ func (bla *BucketLeapArray) VerifDump() (buckets []VerifBucket, lockWord int32) 
 		var b VerifBucket
 		if ww != nil {
 			b.Start = atomic.LoadUint64(&ww.BucketStart)
-			if mb, ok := ww.Value.Load().(*MetricBucket); ok && mb != nil {
+			if mb, ok := ww.Value.RawLoad().(*MetricBucket); ok && mb != nil {
 				for e := 0; e < int(base.MetricEventTotal); e++ {
 					b.Counter[e] = atomic.LoadInt64(&mb.counter[e])
 				}
@@ -94,9 +94,35 @@ func (bla *BucketLeapArray) VerifRegions() []VerifRegion {
 	for i := 0; i < la.array.length; i++ {
 		ww := la.array.data[i]
 		out = append(out, VerifRegion{unsafe.Pointer(ww), unsafe.Sizeof(*ww)})
-		if mb, ok := ww.Value.Load().(*MetricBucket); ok && mb != nil {
+		if mb, ok := ww.Value.RawLoad().(*MetricBucket); ok && mb != nil {
 			out = append(out, VerifRegion{unsafe.Pointer(mb), unsafe.Sizeof(*mb)})
 		}
+	}
+	return out
+}
+
+// ---- generic LeapArray accessors (circuit breaker statistics) ----
+
+func (la *LeapArray) VerifWraps() []*BucketWrap {
+	out := make([]*BucketWrap, 0, la.array.length)
+	for i := 0; i < la.array.length; i++ {
+		out = append(out, la.array.data[i])
+	}
+	return out
+}
+
+func (la *LeapArray) VerifLockWord() int32 {
+	return atomic.LoadInt32((*int32)(unsafe.Pointer(&la.updateLock)))
+}
+
+func (la *LeapArray) VerifRegions() []VerifRegion {
+	out := []VerifRegion{
+		{unsafe.Pointer(la), unsafe.Sizeof(*la)},
+		{la.array.base, uintptr(la.array.length) * unsafe.Sizeof(uintptr(0))},
+	}
+	for i := 0; i < la.array.length; i++ {
+		ww := la.array.data[i]
+		out = append(out, VerifRegion{unsafe.Pointer(ww), unsafe.Sizeof(*ww)})
 	}
 	return out
 }
